@@ -529,6 +529,8 @@ class Executor:
             ts_arg = np.array(ts, dtype=float)
         elif tt == "tuple":
             ts_arg = tuple(ts)
+        elif tt == "npscalars":
+            ts_arg = [np.float64(v) for v in ts]
         else:
             ts_arg = list(ts)
         mons = self._mons(op, s)
@@ -571,6 +573,14 @@ class Executor:
             kwargs["flush"] = sink
         stop_copy = dict(r.stop) if r.stop is not None else None
         mon_fp_before = self._mon_fingerprints()
+        cfl_arg = cfl
+        if op.get("np_args"):
+            cfl_arg = np.float64(cfl)
+            if stop is not None and shared is None:
+                if "maxit" in stop:
+                    stop["maxit"] = np.int64(stop["maxit"])
+                if "tottime" in stop:
+                    stop["tottime"] = np.float64(stop["tottime"])
         # -- the call --------------------------------------------------------
         self.rec.begin_op(i, solver, r.fault_specs)
         fn = solver.solve if r.kind == "solve" else solver.restart
@@ -578,9 +588,12 @@ class Executor:
         try:
             if "verbose" in directives:
                 sys.stdout = _NullOut()
-            out = fn(f, cfl, ts_arg, **kwargs)
+            out = fn(f, cfl_arg, ts_arg, **kwargs)
             r.outcome = "returned"
         except BaseException as e:  # noqa
+            if isinstance(e, HarnessError):
+                sys.stdout = saved_stdout
+                raise
             out = None
             r.outcome = "raised"
             r.exc = e
@@ -663,6 +676,8 @@ class Executor:
             solver.step(g, dt)
             r.outcome = "returned"
         except BaseException as e:  # noqa
+            if isinstance(e, HarnessError):
+                raise
             r.outcome = "raised"
             r.exc = e
             r.exc_injected = any(e is x[2] for x in self.rec.op.fired)
